@@ -58,6 +58,11 @@ impl Matrix3 {
         else if r == 1 { if c == 0 { self.m10@ } else if c == 1 { self.m11@ } else { self.m12@ } }
         else { if c == 0 { self.m20@ } else if c == 1 { self.m21@ } else { self.m22@ } }
     }
+    /// Matrix3::new(m11, m12, m13, m21, ...) — row-major arguments
+    #[verifier::external_body]
+    pub fn new(m00: F, m01: F, m02: F, m10: F, m11: F, m12: F, m20: F, m21: F, m22: F) -> (r: Matrix3)
+        ensures r.m00 == m00, r.m01 == m01, r.m02 == m02, r.m10 == m10, r.m11 == m11, r.m12 == m12, r.m20 == m20, r.m21 == m21, r.m22 == m22
+    { unimplemented!() }
     #[verifier::external_body]
     pub fn zeros() -> (r: Matrix3)
         ensures r.m00@ == 0real, r.m01@ == 0real, r.m02@ == 0real, r.m10@ == 0real, r.m11@ == 0real, r.m12@ == 0real,
